@@ -218,6 +218,13 @@ def main(argv=None):
     n_known = sum(len(v) for v in known_hit.values())
     proved_unb = sum(1 for e in unb if e["status"] == "proved")
     level = "proof" if unb else "other"
+    try:
+        # never report a stronger level than the one claimed in MANIFEST.json for this property
+        claimed = {c["property_id"]: c["level_claimed"]["category"] for c in json.load(open(os.path.join(VERIF, "MANIFEST.json")))["checks"]}
+        if claimed.get(prop) == "other":
+            level = "other"
+    except Exception:
+        pass
     cov = {
         "checker_cmd": f"./check {prop} --tier {args.tier}",
         "trusted_base": [ASSUMPTIONS[a] for a in PROP_ASSUMPTIONS.get(prop, sorted(ASSUMPTIONS))],
